@@ -10,7 +10,7 @@ K_TIERS = dict(quick=dict(jobs=14, timeout=420), thorough=dict(jobs=14, timeout=
 
 # K harness selection: (regex over `module::fn`, tiers)
 K_SEL = {
-    "C08": [(r"^c08_", ("quick", "thorough"))],
+    "C08": [(r"^c08_alu_(add|sub|shl|shr|shri|divmod_full_errcond)$", ("quick", "thorough")), (r"^c08_", ("thorough",))],
 }
 
 # harnesses that are only run in the thorough tier (slow)
